@@ -97,6 +97,8 @@ def gen_case(rng):
             kind = [k for s, k, l in plants if s == sec]
             if not kind or kind[0] != 'syntax':
                 steps += rng.choice([['tifa', 'run'], ['run', 'tifa'], ['tifa'], ['run']])
+            elif rng.random() < 0.6:
+                steps.append('run')      # the sandbox is asked to run a section that does not compile
             if kind and kind[0] == 'callerr':
                 if steps[-1] != 'run' and steps[-2] != 'run':
                     steps.append('run')
